@@ -28,13 +28,18 @@ TraceInit == l = 1 /\ prep = NoHandles
 \* are not stable across TLC runs with different root modules)
 Plain(operand) == IF operand.k = "prep" THEN prep[operand.h].g ELSE operand.g
 
+\* operands built by the harness outside the catalogue carry the field wild
+InDomain(g) == "wild" \notin DOMAIN g
+
 Prepare(e) ==
     /\ prep' = (e.h :> [g |-> e.g, fp |-> e.fp]) @@ prep
 RelateCall(e) ==
     /\ e.a.k = "prep" => e.a.h \in DOMAIN prep
     /\ e.b.k = "prep" => e.b.h \in DOMAIN prep
-    \* PreparedAnswersLikePlain
-    /\ e.im = DE9IM(Plain(e.a), Plain(e.b), F)
+    \* PreparedAnswersLikePlain: the property itself - the same matrix as relate on the plain operands ...
+    /\ e.im = e.plain
+    \* ... and, where the specification knows the true matrix (operands in the domain of C01), that matrix
+    /\ InDomain(Plain(e.a)) /\ InDomain(Plain(e.b)) => e.im = DE9IM(Plain(e.a), Plain(e.b), F)
     \* CacheUnchanged: the cached graph after the call is the graph built by Prepare
     /\ e.a.k = "prep" => e.fpa = prep[e.a.h].fp
     /\ e.b.k = "prep" => e.fpb = prep[e.b.h].fp
